@@ -420,6 +420,51 @@ theorem cmpOf_totalPreorder (div10 : Bool) : TotalPreorder (cmpOf div10) := by
   | false => exact int_totalPreorder
   | true => exact totalPreorder_comap int_totalPreorder (fun a : Int => a.tdiv 10)
 
+/-! ## the specification list is the inserted-and-not-removed entries; Remove undoes a fresh Insert -/
+
+/-- **the specification list really is "the inserted-and-not-removed entries"**: `Insert` adds exactly one entry (the
+    result is a permutation of the new entry and the old list), `Remove` takes away at most one and never invents one -/
+theorem spec_content (l : List (K × V)) (k : K) (v : V) :
+    (Spec.insert cmp l k v).Perm ((k, v) :: l)
+    ∧ (Spec.insert cmp l k v).length = l.length + 1
+    ∧ (Spec.remove cmp l k).Sublist l
+    ∧ ((∃ e ∈ l, cmp k e.1 = .eq) → (Spec.remove cmp l k).length + 1 = l.length)
+    ∧ ((∀ e ∈ l, cmp k e.1 ≠ .eq) → Spec.remove cmp l k = l) := by
+  have hp : (Spec.insert cmp l k v).Perm ((k, v) :: l) := by
+    unfold Spec.insert
+    refine List.perm_middle.trans ?_
+    rw [List.takeWhile_append_dropWhile]
+  refine ⟨hp, by simpa using hp.length_eq, List.eraseP_sublist, ?_, ?_⟩
+  · rintro ⟨e, he, hk⟩
+    unfold Spec.remove
+    have := List.length_eraseP_of_mem (p := fun e => cmp k e.1 == .eq) he (by simp [hk])
+    have hl : 0 < l.length := List.length_pos_of_mem he
+    omega
+  · intro h
+    unfold Spec.remove
+    exact List.eraseP_of_forall_not (fun e he => by simpa using h e he)
+
+/-- **Remove undoes Insert of a key the tree did not hold**: on any search tree, `Insert(k, v)` followed by `Remove(k)`
+    gives back the former in-order sequence (and with it every traversal and query answer) -/
+theorem insert_remove_fresh (hc : TotalPreorder cmp) (t : Tree K V) (k : K) (v : V) (hs : T.Sorted cmp t.root)
+    (hfresh : ∀ e ∈ T.inorder t.root, cmp k e.1 ≠ .eq) :
+    T.inorder (((t.insert cmp k v).1.remove cmp k).1).root = T.inorder t.root := by
+  have hs' : T.Sorted cmp (t.insert cmp k v).1.root := sorted_step hc t (.ins k v) hs
+  rw [remove_inorder hc _ k hs', insert_inorder hc t k v hs]
+  unfold Spec.remove Spec.insert
+  have hkk : cmp k k = .eq := by
+    have := hc.swap k k
+    cases h : cmp k k <;> simp_all [Ordering.swap]
+  rw [List.eraseP_append_right _ (by
+        intro e he
+        have := hfresh e ((List.takeWhile_sublist _).mem he)
+        simpa using this)]
+  rw [List.eraseP_cons_of_pos (by simp [hkk]), List.takeWhile_append_dropWhile]
+
+/-! non-vacuity of the premises: a present key, and a fresh key on a reachable tree -/
+example : ∃ e ∈ [((1 : Int), (0 : Int)), (2, 0)], cmpOf false 2 e.1 = .eq := by decide
+example : ∀ e ∈ T.inorder (Tree.run (cmpOf false) [.ins 5 1, .ins 7 2]).root, cmpOf false 6 e.1 ≠ .eq := by decide
+
 /-! non-vacuity: a concrete history with duplicates (5,5,5 then remove 5): the first duplicate goes -/
 example : T.inorder (Tree.run (cmpOf false) [.ins 5 1, .ins 5 2, .ins 5 3, .rem 5]).root = [(5, 2), (5, 3)] := by
   decide
